@@ -262,4 +262,41 @@ theorem sle_pure_solute (T Tm m : α) (liquid solid : List α) (s : Nat) :
   unfold pureSolute
   exact ⟨fun h => by simp [h], fun h => by simp [not_lt.mpr h]⟩
 
+/-- `K`/`phi` bookkeeping of a two-phase result without clipping: `K_i = (L_i/F_L)/(l_i/F_l)`,
+`phi = F_L/(F_L + F_l)` — the form `cached_path_reproduces` assumes. -/
+theorem bookkeep_two_phase (eps big : α) (l L : List α) (hl : vsum l ≠ 0) (hL : vsum L ≠ 0)
+    (hclip : ∀ v ∈ l, ¬ v / vsum l < eps) (hlen : l.length = L.length) :
+    bookkeep eps big l L =
+      (List.zipWith (fun bi ai => (bi / vsum L) / (ai / vsum l)) L l, vsum L / (vsum L + vsum l)) := by
+  unfold bookkeep
+  have h1 : nz (vsum L) = true := (nz_iff _).mpr hL
+  have h2 : nz (vsum l) = true := (nz_iff _).mpr hl
+  simp only [h1, h2, Bool.not_true, Bool.false_eq_true, if_false, Prod.mk.injEq, and_true]
+  have : l.map (fun v => if v / vsum l < eps then eps else v / vsum l) = l.map (· / vsum l) := by
+    apply List.map_congr_left
+    intro v hv
+    simp [hclip v hv]
+  rw [this]
+  clear this hclip h1 h2 hl hL
+  generalize vsum l = A
+  generalize vsum L = B
+  induction l generalizing L with
+  | nil => cases L <;> simp
+  | cons a l ih =>
+    cases L with
+    | nil => simp at hlen
+    | cons b L =>
+      simp only [List.map_cons, List.zipWith_cons_cons, List.cons.injEq, true_and]
+      exact ih L (by simpa using hlen)
+
+theorem sleSetup_pure (st : SleState) (nonzero idx : List Nat) (hidx : idx.length = 1)
+    (hst : st.nonzero ≠ some nonzero ∨ st.pure = true) : (sleSetup st nonzero idx).pure = true := by
+  unfold sleSetup
+  by_cases h : (st.nonzero == some nonzero) = true
+  · rw [if_pos h]
+    rcases hst with h' | h'
+    · exact absurd (by simpa using h) h'
+    · exact h'
+  · rw [if_neg h]; simp [hidx]
+
 end ThermoVerif.LLESLE
